@@ -55,7 +55,7 @@ theorem notify_filter {cfg : Cfg} {st : State} {m : Mon} (h : Sim cfg st m) (ov 
     ((st.subs.map (deliver cfg st ov a)).flatMap (·.2)).filter (fun msg => msg.sub == i) =
       match m.recs i with
       | some r => if r.alive cfg m.now ∧ suffixMatch r.filter a = true
-                  then [⟨.notification a, i, r.notifyTo, st.outcomeFor ov i r.notifyTo⟩] else []
+                  then [⟨.notification a, i, r.notifyTo, st.outcomeFor ov i r.notifyTo, r.notifyRefs⟩] else []
       | none => [] := by
   rw [flatMap_map_snd, h.now_eq]
   have hg : ∀ s : Sub, ∀ msg ∈ (deliver cfg st ov a s).2, msg.sub = s.id := fun s => deliver_msgs_sub
@@ -99,7 +99,7 @@ theorem stop_filter {cfg : Cfg} {st : State} {m : Mon} (h : Sim cfg st m) (ov : 
     (st.subs.flatMap (endMsg cfg st ov)).filter (fun msg => msg.sub == i) =
       match m.recs i with
       | some r => if r.alive cfg m.now
-                  then [⟨.subscriptionEnd, i, r.endTo.getD r.notifyTo, st.outcomeFor ov i (r.endTo.getD r.notifyTo)⟩] else []
+                  then [⟨.subscriptionEnd, i, r.endTo.getD r.notifyTo, st.outcomeFor ov i (r.endTo.getD r.notifyTo), r.endRefs⟩] else []
       | none => [] := by
   rw [h.now_eq]
   have hg : ∀ s : Sub, ∀ msg ∈ endMsg cfg st ov s, msg.sub = s.id := fun s => endMsg_sub
@@ -202,14 +202,14 @@ theorem gone_step {cfg : Cfg} {st : State} {m : Mon} (h : Sim cfg st m) (op : Op
     · exact hlt
     · have := h.fresh i hge; rw [hr] at this; cases this
   cases op with
-  | subscribe nt et f d e =>
+  | subscribe nt et f d e nr er =>
     cases f with
     | none => simp only [step, Mon.step, Mon.gone, hr]; exact hg
     | some f =>
       by_cases hd : (cfg.checkDialect && !d) = true
       · simp only [step, hd, if_true, Mon.step, Mon.gone, hr]; exact hg
       · have hne : i ≠ st.nextId := by omega
-        have hid : (renewed cfg st.now e ⟨st.nextId, nt, et, f, 0, 0, 0, false, none⟩).id = st.nextId := rfl
+        have hid : (renewed cfg st.now e ⟨st.nextId, nt, et, f, 0, 0, 0, false, none, nr, et.isSome && er⟩).id = st.nextId := rfl
         simp only [step, hd, Bool.false_eq_true, if_false, Mon.step, Mon.gone, hid, hne, hr]; exact hg
   | renew k e =>
     cases hf : st.find cfg k with
